@@ -70,7 +70,7 @@ static inline ptrdiff_t creader_readline(struct creader *reader,
     while ((it != *token) && (*it == '\n' || *it == '\r'))
         --it;
 
-    if (it == *token)
+    if (it == *token && (*it == '\n' || *it == '\r' || *it == '\0'))
         return 0;
 
     len = it - *token + 1;
